@@ -46,7 +46,7 @@ func equalAny(e *entry, a, b any) (eq bool, how string, err error) {
 	if err != nil {
 		return false, "encoding", err
 	}
-	return bytes.Equal(ea, eb), "encoding", nil
+	return sameEncoding(e, ea, eb), "encoding", nil
 }
 
 // verdict of oracle V on one input.
